@@ -190,6 +190,60 @@ def status_at_every_step(ck, mons, seed, hi):
     ck.nontrivial(('status-every-step', hi))
 
 
+CROSS_OWN = ('dpd', 'expire_soft', 'acquire', 'rekey_ike')
+CROSS_PEER = ('rekey_ike', 'expire_soft', 'acquire', 'dpd', 'expire_hard')
+
+
+def crossing_with_queued_notices(ck, mons, seed, i):
+    """Timer coincidences: a request of the daemon's own is in flight (its DPD probe, a CHILD_SA rekey, a new CHILD_SA, its IKE_SA rekey), the kernel reports an EXPIRE for
+    ANOTHER CHILD_SA in that window (it is queued), and the peer's own request - its IKE_SA rekey among them - arrives before the answer. Every queued notice is served by
+    the IKE_SA that owns the SA by then: once everything has settled the expired CHILD_SA is no longer tracked (replaced and deleted, or deleted), and no IKE_SA has left
+    the table except through a DELETE exchange, its replacement by a rekey, or a retransmission time-out."""
+    own, peer = CROSS_OWN[i % len(CROSS_OWN)], CROSS_PEER[(i // len(CROSS_OWN)) % len(CROSS_PEER)]
+    hard = bool((i // (len(CROSS_OWN) * len(CROSS_PEER))) % 2)
+    sc = walk.Scenario(seed + i, mons, dict(dpd=600, lifetime=3600), n_children=2)
+    sim = sc.sim
+    if not sc.ok:
+        return
+    sim.case.update({'family': 'crossing-with-queued-notices', 'own_request': own, 'peers_request': peer, 'queued_expire_is_hard': hard})
+    kids = sc.shared_children('A')
+    if len(kids) < 2:
+        return
+    victim = kids[1][1]
+    vspi = bytes(victim.inbound_spi)
+    sc.trigger('A', own)
+    held = [d for d in sim.net if d.dst == str(sc.b.addrs[0])]
+    for d in held:
+        sim.net.remove(d)
+    busy = next((x for x in sc.a.ctl.ike_sas if x.state.name.endswith('_REQ_SENT')), None)
+    if busy is None or not held:
+        ck.count('crossing_queued.own_request_not_in_flight')
+        return
+    busy_state = busy.state.name
+    q0 = sum(len(x.pending_events) for x in sc.a.ctl.ike_sas)
+    sim.expire(sc.a, vspi, hard, daddr=str(sc.a.addrs[0]))
+    queued = sum(len(x.pending_events) for x in sc.a.ctl.ike_sas) - q0
+    sc.trigger('B', peer)
+    sim.drain()                     # the peer's request reaches A first (and is answered, refused or queued)
+    sim.net.extend(held)
+    sim.drain()
+    sc.settle()
+    ck.count('crossing_queued.runs')
+    if queued:
+        ck.count('crossing_queued.notices_queued')
+    ck.seen('crossing_queued.kinds', (busy_state, peer, hard, bool(queued)))
+    ck.nontrivial(('crossing-queued', own, peer, hard, queued))
+    if not sc.a.ctl.ike_sas:
+        ck.count('crossing_queued.ike_sa_closed')
+        return
+    still = [x.state.name for x in sc.a.ctl.ike_sas for c in x.child_sas if bytes(c.inbound_spi) == vspi]
+    if still and queued:
+        ck.violation(f"expire-notice-queued-while-a-request-was-in-flight-never-served:{busy_state}:peer-{peer}:{'hard' if hard else 'soft'}",
+                     {'expired_inbound_spi': vspi.hex(), 'still_tracked_by': still, 'table': [(x.state.name, len(x.pending_events)) for x in sc.a.ctl.ike_sas]}, sim.case)
+    else:
+        ck.count('crossing_queued.notice_served')
+
+
 def ends_with_children(ck, mons, seed, i):
     """An IKE_SA that holds TWO to FOUR CHILD_SAs ends - delete exchange started by either end, retransmission time-out after the peer vanished, DELETE(IKE) of the peer
     arriving while an exchange of ours is in flight: it leaves the table together with ALL its kernel SAs, at both ends where both ends learn of it."""
@@ -266,6 +320,9 @@ def run(ck):
     for i in range(30 if not ck.thorough() else 600):
         if ck.mine(i):
             ends_with_children(ck, [tab], base + 777 + i, i)
+    for i in range(40 if not ck.thorough() else 800):
+        if ck.mine(i + 2):
+            crossing_with_queued_notices(ck, [tab, exp], base + 888, i)
     # (a) duplication patterns of rekey / delete exchanges
     lists = [[('A', 'rekey_ike')], [('B', 'rekey_ike')], [('A', 'delete_ike')], [('B', 'delete_ike')],
              [('A', 'rekey_ike'), ('B', 'rekey_ike')], [('A', 'rekey_ike'), ('B', 'delete_ike')],
@@ -751,6 +808,7 @@ def run(ck):
 
 
 def verdict(ck):
+    ck.floor('EXPIRE notices queued while a request was in flight and the peer\'s own request crossed it', ck.counters['crossing_queued.notices_queued'], 25)
     ck.floor('IKE_SAs with several CHILD_SAs that ended, table and kernel empty afterwards', ck.counters['ends.table_and_kernel_empty'], 24)
     ck.floor('IKE_SAs ended by an authentic message with an odd SPI size, kernel SAs compared', ck.counters['odd_spi.sad_equals_tracked'], 24)
     ck.floor('status queries between the single steps of histories that start before the handshake', ck.counters['status.queries_between_single_steps'], 400)
